@@ -305,6 +305,13 @@ def D32():
             out.append(f"window {what}, freq={freq}: {r}")
     return '; '.join(out)
 
+@witness
+def D33():
+    tg = grid(2); pr = sine(tg)
+    base = A.Storage('b', nodes=N1, size=10, cap_in=2, cap_out=2, eff_in=.9, no_simult_in_out=True)
+    eao.portfolio.Portfolio([sc('a'), A.ScaledAsset(name='s', base_asset=base, max_scale=2)]).setup_optim_problem(pr, tg)
+    return 'no error'
+
 if __name__ == '__main__':
     which = sys.argv[1:] or list(W)
     for k in which:
